@@ -13,5 +13,6 @@ CONSTANTS
   ChunkAbort = FALSE
   FixStopDone = FALSE
   FixClosed = FALSE
+  Cancels <- MCCancels
   Admit <- Known
 CHECK_DEADLOCK FALSE
